@@ -315,7 +315,8 @@ TIMING_WHY = {"Bounded", "follower-serves-expired", "ExpiryIsLoggedDel-follower"
 
 
 def stalled(run):
-    return max(run["stall_ms"], run["max_rtt_ms"]) > STALL_LIMIT_MS
+    # (a restarted server restarts every TTL: sampling it must take well under the 2 s the specification allows)
+    return max(run["stall_ms"], run["max_rtt_ms"]) > STALL_LIMIT_MS or run.get("restart_ms", 0) > 1200
 
 
 def describe(rej, prog):
